@@ -39,8 +39,10 @@ SCENARIOS = {
     # the update drops a pool whose connection the application already closed (its Close fails) while calls are being routed
     "drop-severed": ([NEW([ME("m1", "a", "b")], "m1"), {"op": "sever", "e": "a"}], [RPC(""), UPD([ME("m1", "b", "c")], "m1"), RPC("m1", True)],
                      [RPC(""), {"op": "close"}]),
+    # Close while calls are being routed: no call may panic or hang, every pool is closed and no goroutine is left
+    "close-rpc": ([NEW([ME("m1", "a", "b"), ME("m2", "b")], "m1")], [RPC(""), {"op": "close"}, RPC("m2", True)], [RPC("")]),
 }
-PROP_SCENARIOS = {"C15": ["swap-endpoint", "rename-default"], "C16": ["swap-endpoint", "rename-default", "rejected", "drop-severed"]}
+PROP_SCENARIOS = {"C15": ["swap-endpoint", "rename-default"], "C16": ["swap-endpoint", "rename-default", "rejected", "drop-severed", "close-rpc"]}
 
 
 def script_of(name, sched, sid):
@@ -84,7 +86,7 @@ def linearizations(events):
                     sub = dict(subs[k])
                     for f in ("sub", "ivs", "locks", "exec", "drift"):
                         sub.pop(f, None)
-                    snap = e if (seen_update or sub["op"] == "update") else prev
+                    snap = e if (seen_update or sub["op"] in ("update", "close")) else prev
                     for f in ("conns", "pools", "routes", "settled", "gor"):
                         sub[f] = snap[f]
                     sub["routes0"] = e["routes0"] if sub["op"] == "update" else snap["routes"]
@@ -96,7 +98,7 @@ def linearizations(events):
                     for f in ("dials", "mes"):
                         if sub.get(f) is None:
                             sub[f] = []
-                    if sub["op"] == "update":
+                    if sub["op"] in ("update", "close"):
                         seen_update = True
                     seq.append(sub)
                 new.append(seq)
